@@ -462,7 +462,33 @@ def c11(ctx):
                   "every argument list of length 0..%d over the pool {-7,-2,0,3,12,18,Err} (TLC, exhaustive, all orders) with the specification's own result, in every evaluator and alias; boundary-value lists (exhaustive up to length %d, seeded random up to length 8) against the reference interpreter; non-trivial = lists with >= 2 arguments" % (maxlen, 2 if ctx.quick() else 3),
                   extra={"exhaustive": True, "invariants_checked": ["C11FoldsAgree", "C11OrderIndependent"], "interpreter_vectors_reproduced": semr["selftest"]["vectors"]}, spec_viol=sv)
 
-CHECKS = {"C11": c11, "C06": c06, "C09": c09, "C01": c01, "C03": c03, "C04": c04, "C12": c12, "C13": c13, "C14": c14, "C20": c20}
+def c02(ctx):
+    vlib.vocab_json()
+    q = ctx.quick()
+    # the loops of the evaluators as a state machine: bounded iteration counts, termination under weak fairness
+    lcfg = "CONSTANTS W = 8\nNMax = %d\nSPECIFICATION Spec\nINVARIANT Bounded CapIndependent\nPROPERTY Terminates\nCHECK_DEADLOCK FALSE\n" % (300 if q else 1500)
+    lr = vlib.tlc("Loops", lcfg, "C02_loops", workers=8, timeout=3600)
+    vlib.tlc_ok(lr, "Loops")
+    log("TLC Loops: %d states, %d distinct, %.0fs%s" % (lr["states"], lr["distinct"], lr["wall_s"], (" VIOLATED " + str(lr["violated"])) if lr["violated"] else ""))
+    # parser/tree-walk step counters on every token sequence; lexer progress on every short string
+    models = run_grammar_models(ctx, EVALS, (lambda e: 4 if q else 6), ["StepsAgree", "StepsLinear", "EvalLinear"])
+    models.update(run_lexer_models(ctx, EVALS, ["lit", "kw2"], 3 if q else 5, ["Progress", "TokenCount"]))
+    def jobs(profile):
+        js = replay_jobs(ctx, None, profile, models, {"assignments": 1, "full_placeholders": True, "event_every": 40, "event_cap": 3000, "profile": profile})
+        for e in EVALS:
+            if e == "cpx":
+                continue
+            for sh in range(2):
+                js.append(base_job(ctx, "loops", "%s_loops_%s_%d" % (profile, e, sh), profile, e=e, shard=sh, nshards=2, event_every=7, event_cap=4000))
+        return js
+    f, s = run_jobs(ctx, jobs)
+    sv = [(k, r["violated"], r["log"]) for k, r in list(models.items()) + [("Loops", lr)] if r["violated"]]
+    return finish(ctx, {"budget", "hang"}, [lr] + list(models.values()), f, s,
+                  "every looping construct (x!, ilog, w, gcd, lcm) x the extreme-argument pool (huge, non-finite, zero, negative, base <= e^(1/e), consecutive Fibonacci numbers) x nesting, per evaluator, plus every token sequence up to N with boundary placeholders and every short string; a call exceeding 4096+256*len counted steps (hook budget), hanging (watchdog) is a violation; CalcTrace asserts the recorded parser/tree-walk step counts equal the specification's exactly; non-trivial = inputs containing a loop construct or >= 2 tokens",
+                  extra={"invariants_checked": ["Loops!Bounded", "Loops!CapIndependent", "Loops!Terminates (liveness, WF)", "StepsAgree", "StepsLinear", "EvalLinear", "Progress", "TokenCount"],
+                         "exhaustive": True}, spec_viol=sv)
+
+CHECKS = {"C02": c02, "C11": c11, "C06": c06, "C09": c09, "C01": c01, "C03": c03, "C04": c04, "C12": c12, "C13": c13, "C14": c14, "C20": c20}
 
 def replay(prop, path):
     f = json.load(open(path))
